@@ -147,6 +147,9 @@ impl Ctx {
         if p.lemire_fallback {
             rep.count("path.lemire_lo_max_fallback");
         }
+        if p.neg_limbs_differ {
+            rep.count("path.slow_neg_limb_boundary_between_digits_and_halfway");
+        }
         if p.bellero {
             rep.count("path.bellerophon");
         }
@@ -322,6 +325,11 @@ fn next_case(ctx: &mut Ctx, rng: &mut Rng, fmt: Fmt) -> Case {
                     }
                 } else if r < 94 {
                     gen::g1x(rng, fmt)
+                } else if r < 97 && fmt.mant_bits == 52 {
+                    match gen::g_limb_boundary(rng) {
+                        Some(c) => c,
+                        None => continue,
+                    }
                 } else {
                     gen::g9(rng, fmt)
                 }
@@ -372,6 +380,11 @@ fn next_case(ctx: &mut Ctx, rng: &mut Rng, fmt: Fmt) -> Case {
                     }
                 } else if r < 89 {
                     gen::g1x(rng, fmt)
+                } else if r < 92 && fmt.mant_bits == 52 {
+                    match gen::g_limb_boundary(rng) {
+                        Some(c) => c,
+                        None => continue,
+                    }
                 } else {
                     gen::g9(rng, fmt)
                 }
@@ -751,6 +764,11 @@ fn mode_oracle(ctx: &mut Ctx, args: &Args, rng: &mut Rng, shard: (u64, u64)) {
     }
     if ctx.prop == "C02" {
         ctx.rep.require("probe.double_rounding_discriminating");
+    }
+    if ctx.prop == "C01" {
+        // the slow path's two big integers on different sides of a power of 2^64 (constructed: gen::g_limb_boundary)
+        ctx.rep.require("tag.LIMB_BOUNDARY");
+        ctx.rep.require("path.slow_neg_limb_boundary_between_digits_and_halfway");
     }
     if !cfg!(feature = "compact") && (ctx.prop == "C01" || ctx.prop == "C07") {
         // Eisel-Lemire's lo == MAX bail-out: reached only through the constructed corpus entries (2^-64 otherwise)
